@@ -16,7 +16,7 @@ import XmlDiffModel.Model.Action
 namespace XmlDiffModel
 
 inductive Err where
-  | notFound      -- xpath(...)[0] on an empty result (IndexError) or unparsable path
+  | notFound      -- xpath(...)[0] on an empty result (IndexError)
   | ambiguous     -- strict only: more than one node selected
   | assertFail    -- AssertionError
   | keyError      -- KeyError
@@ -38,62 +38,58 @@ def elemPayload (tag : Str) : Payload :=
   { kind := .elem, tag := tag, attrs := [], text := none, tail := none }
 
 /-- `tree.xpath(path)[0]` -/
-def firstHit (qn : QName) (t : Tree) (path : Str) : Except Err Tree :=
-  match parsePath path with
-  | none => .error .notFound
-  | some p => match resolve qn t p with
-    | [] => .error .notFound
-    | x :: _ => .ok x
+def firstHit (qn : QName) (t : Tree) (p : Path) : Except Err Tree :=
+  match resolve qn t p with
+  | [] => .error .notFound
+  | x :: _ => .ok x
 
 /-- Strict addressing: exactly one hit, and the last step carries an index. -/
-def uniqueHit (qn : QName) (t : Tree) (path : Str) : Except Err Tree :=
-  match parsePath path with
-  | none => .error .notFound
-  | some p =>
-    if (p.getLast?.bind (·.idx)).isNone then .error .noIndex
-    else match resolve qn t p with
-      | [] => .error .notFound
-      | [x] => .ok x
-      | _ => .error .ambiguous
+def uniqueHit (qn : QName) (t : Tree) (p : Path) : Except Err Tree :=
+  if (p.getLast?.bind (·.idx)).isNone then .error .noIndex
+  else match resolve qn t p with
+    | [] => .error .notFound
+    | [x] => .ok x
+    | _ => .error .ambiguous
 
 def isRoot (t : Tree) (i : Nat) : Bool := t.id == i
 
-def applyShipped (qn : QName) (s : PState) : Action → Except Err PState
+/-- The handlers of `patch.py`, parametric in how a path is turned into a node. -/
+def applyWith (hit : Tree → Path → Except Err Tree) (s : PState) : Action → Except Err PState
   | .deleteNode node => do
-    let n ← firstHit qn s.tree node
+    let n ← hit s.tree node
     if isRoot s.tree n.id then .error .rootOp
     else .ok { s with tree := s.tree.remove n.id }
   | .insertNode target tag pos => do
-    let tg ← firstHit qn s.tree target
+    let tg ← hit s.tree target
     .ok { tree := Tree.insertChild tg.id pos (.node s.next (elemPayload tag) []) s.tree, next := s.next + 1 }
   | .renameNode node tag => do
-    let n ← firstHit qn s.tree node
+    let n ← hit s.tree node
     .ok { s with tree := s.tree.modify n.id (fun p => { p with tag := tag }) }
   | .moveNode node target pos => do
-    let n ← firstHit qn s.tree node
-    let tg ← firstHit qn s.tree target
+    let n ← hit s.tree node
+    let tg ← hit s.tree target
     if isRoot s.tree n.id then .error .rootOp
     else .ok { s with tree := Tree.insertChild tg.id pos n (s.tree.remove n.id) }
   | .updateTextIn node text => do
-    let n ← firstHit qn s.tree node
+    let n ← hit s.tree node
     .ok { s with tree := s.tree.modify n.id (fun p => { p with text := text }) }
   | .updateTextAfter node text => do
-    let n ← firstHit qn s.tree node
+    let n ← hit s.tree node
     .ok { s with tree := s.tree.modify n.id (fun p => { p with tail := text }) }
   | .updateAttrib node name value => do
-    let n ← firstHit qn s.tree node
+    let n ← hit s.tree node
     if !attrHas n.payload.attrs name then .error .assertFail
     else .ok { s with tree := s.tree.modify n.id (fun p => { p with attrs := attrSet p.attrs name value }) }
   | .deleteAttrib node name => do
-    let n ← firstHit qn s.tree node
+    let n ← hit s.tree node
     if !attrHas n.payload.attrs name then .error .keyError
     else .ok { s with tree := s.tree.modify n.id (fun p => { p with attrs := attrDel p.attrs name }) }
   | .insertAttrib node name value => do
-    let n ← firstHit qn s.tree node
+    let n ← hit s.tree node
     if attrHas n.payload.attrs name then .error .assertFail
     else .ok { s with tree := s.tree.modify n.id (fun p => { p with attrs := attrSet p.attrs name value }) }
   | .renameAttrib node oldname newname => do
-    let n ← firstHit qn s.tree node
+    let n ← hit s.tree node
     match attrGet n.payload.attrs oldname with
     | none => .error .assertFail
     | some v =>
@@ -102,10 +98,17 @@ def applyShipped (qn : QName) (s : PState) : Action → Except Err PState
         let f : Payload → Payload := fun p => { p with attrs := attrDel (attrSet p.attrs newname v) oldname }
         .ok { s with tree := s.tree.modify n.id f }
   | .insertComment target pos text => do
-    let tg ← firstHit qn s.tree target
+    let tg ← hit s.tree target
     .ok { tree := Tree.insertChild tg.id pos (.node s.next (commentPayload text) []) s.tree, next := s.next + 1 }
   | .insertNamespace _ _ => .ok s
   | .deleteNamespace _ => .ok s
+
+/-- `Patcher._handle_*`: first hit of the XPath evaluation. -/
+def applyShipped (qn : QName) : PState → Action → Except Err PState := applyWith (firstHit qn)
+
+/-- The same handlers when every path must select exactly one node and carry a final index
+(the addressing discipline of C04), without the structural checks of `applyStrict`. -/
+def applyUniq (qn : QName) : PState → Action → Except Err PState := applyWith (uniqueHit qn)
 
 mutual
   def containsId (i : Nat) : Tree → Bool
@@ -182,5 +185,6 @@ def runWith (f : PState → Action → Except Err PState) : PState → List Acti
 
 def runShipped (qn : QName) := runWith (applyShipped qn)
 def runStrict (qn : QName) := runWith (applyStrict qn)
+def runUniq (qn : QName) := runWith (applyUniq qn)
 
 end XmlDiffModel
